@@ -266,6 +266,8 @@ def run(ck):
     ck.extra.update({"behaviours_replayed": len(beh), "behaviours_stopped_by_callback": nstop, "behaviours_stopped_by_max_iter": nmax, "traces": len(traces), "predict_cases": len(pr)})
     if nstop == 0 or nmax == 0:
         raise MachineryError("vacuity: no behaviour stopped by a callback / by max_iter")
+    from harness import extras
+    extras.encode(ck)        # specification growth (refinement tier only): FloatTransformer encoding rules
     ck.assumptions += ["PyTorch backend; regressor with continuous targets for the schedule (every slice has the same target type)", "model equality is exact (torch.equal): both runs perform the same arithmetic"]
 
 
